@@ -14,7 +14,8 @@ RULE = ("correlation A: host call in {none, cudaLaunchKernel, cudaLaunchKernelEx
         "cudaMemsetAsync, cudaStreamSynchronize} x device record in {none, kernel, memcpy, memset, stream sync on "
         "a stream} x launch duration {1,3} x activity start - launch end in {-1,0,2} x activity duration {0,1,3}; "
         "correlation B: one of 4 fixed background patterns; optional uncorrelated extras (launch call without "
-        "correlation id + GPU annotation); x include_memory_events {T,F} x ranks {None,[0],[1],[0,1]} with a "
+        "correlation id + GPU annotation); a magnitude family (raw timestamps/durations near the int8/int16/int32 "
+        "boundaries); x include_memory_events {T,F} x ranks {None,[0],[1],[0,1]} with a "
         "second rank. non-trivial = at least one expected row and at least one excluded call or activity")
 ASSUMPTIONS = [
     "well-formed trace; a launch call is a runtime call named cudaLaunchKernel, cudaLaunchKernelExC, "
@@ -66,6 +67,9 @@ def bg_events(k: int):
 
 def worlds(tier: str, stats: Dict[str, Any]) -> Iterator[Any]:
     b = bounds(tier)
+    for w in magnitude_worlds():
+        stats["transitions"] += 1
+        yield w
     for h, d in itertools.product(HOSTS, DEVS):
         timing = list(itertools.product(b["dl"], b["delta"], b["ddur"])) if (h and d) else [(1, 0, 1)]
         for (dl, delta, ddur) in timing:
@@ -83,6 +87,20 @@ def worlds(tier: str, stats: Dict[str, Any]) -> Iterator[Any]:
                         del launch["args"]["correlation"]
                         evs += [launch, kineto.gpu_annotation("gpu_anno", E0 + 51, 3, 7)]
                     yield dict(host=h, dev=d, timing=[dl, delta, ddur], bg=bg, extras=extras, events=evs)
+
+
+def magnitude_worlds():
+    """small raw values whose sums cross the int8/int16/int32 boundaries (the parser downcasts integer columns)"""
+    for B in (127, 32767, 2**31 - 1):
+        for (lts, ldur, ats) in ((B - 27, 40, B - 10), (B - 27, 40, B), (B - 27, 20, B - 5), (B - 50, B, B - 3)):
+            for adur in (0, 9):
+                evs = [kineto.cpu_op("aten::root", 0, 2, ext=0),
+                       kineto.runtime("cudaLaunchKernel", lts, ldur, 3),
+                       kineto.kernel("kern_a", ats, adur, 7, 3),
+                       kineto.runtime("cudaMemcpyAsync", 4, 2, 5),
+                       kineto.memcpy("Memcpy DtoD (Device -> Device)", 9, 1, 9, 5, bw=1.0)]
+                yield dict(host="cudaLaunchKernel", dev="kernel", timing=["magnitude", B, lts, ldur, ats, adur], bg=0,
+                           extras=False, events=evs)
 
 
 RANK1 = [kineto.cpu_op("aten::root", E0 + 1, 100, ext=0), kineto.runtime("cudaMemsetAsync", E0 + 6, 2, 8),
